@@ -169,6 +169,7 @@ def render(L, toks):
             if exts[half:]:
                 head += b"require [" + b", ".join(b'"%s"' % e.encode() for e in exts[half:]) + b"];" + eol
     cpos = L.next(3, "comment")
+    tailkind = L.next(3, "tail")      # 0: final line end; 1: no final line end; 2: trailing '# c' without line end
     out = head
     for i, t in enumerate(toks):
         if cpos == 1 and i == 1:
@@ -176,6 +177,10 @@ def render(L, toks):
         if cpos == 2 and i == len(toks) // 2:
             out += b"/* c */ "
         out += t + (eol if (t in (b";", b"{", b"}") or t.startswith(b"text:")) else b" ")
+    if tailkind >= 1 and out.endswith(eol):
+        out = out[:-len(eol)]
+    if tailkind == 2:
+        out += b" # bye"
     return out, len(P.ref_tokens(head)[0]) if head else 0
 
 
@@ -226,6 +231,11 @@ if anyof (body :raw :regex "a.*", body :text :is ["a"], date :zone "+0100" :valu
 keep;""",
     b"""redirect "a@b"; fileinto "x"; reject "no"; discard; keep; stop; setflag "a"; addflag "v" "a"; removeflag ["a"];
 vacation "r"; set "x" "y"; redirect :copy "c@d"; fileinto :create "y"; keep :flags "z";""",
+    # upper / mixed case tags whose parameter depends on the tag, strings with CR LF inside
+    b"""if anyof (header :COUNT "ge" :comparator "i;ascii-casemap" "a" "2", body :Content "text" :Contains "x",
+          date :Zone "+0100" :VALUE "lt" "date" "year" "2030", hasflag :Count "ge" "2", hasflag :CONTAINS "v" "f") {
+  vacation :Subject "two\r\nlines" :ADDRESSES ["a@b", "x\r\ny"] "gone\r\n"; fileinto :FLAGS ["a"] :Copy "b";
+}""",
     # equal siblings everywhere: tests, commands, list items, nested lists of equal tests
     b"""if anyof (true, false, true) { keep; keep; }
 if allof (not false, not false, anyof (exists ["a", "a"], exists ["a", "a"])) { if true { stop; } if true { stop; } }
